@@ -50,6 +50,9 @@ func (s *scriptedRendezvous) Exchange(req []byte) ([]byte, error) {
 		return []byte(`{"answer":"{\"type\":1,\"sdp\":null}"}`), nil
 	case "answer-bad-sdp":
 		return []byte(`{"answer":"{\"type\":\"answer\",\"sdp\":\"garbage\"}"}`), nil
+	case "answer-parser-panic-sdp":
+		// SDP text on which pion's parser panics (D14)
+		return []byte(`{"answer":"{\"type\":\"answer\",\"sdp\":\"v=0\\r\\no=- 1 1 IN IP4 0.0.0.0\\r\\ns=-\\r\\nt=0 0\\r\\nr= \\r\\nm=application 9 UDP/DTLS/SCTP webrtc-datachannel\\r\\n\"}"}`), nil
 	case "answer-is-offer":
 		return []byte(`{"answer":"{\"type\":\"offer\",\"sdp\":\"v=0\\r\\n\"}"}`), nil
 	case "both-empty":
@@ -157,7 +160,7 @@ func TestVerifC15Rendezvous(t *testing.T) {
 		if time.Since(start) > time.Duration(vstat.Pick(60, 600))*time.Second {
 			return // time budget of this real-time unit used up: the remaining iterations are empty (not counted as cases)
 		}
-		outcomes := []string{"transport-error", "empty", "nonjson", "error-json", "timeout-json", "answer-wrong-type", "answer-not-json", "answer-type-confusion", "answer-bad-sdp", "answer-is-offer", "both-empty"}
+		outcomes := []string{"transport-error", "empty", "nonjson", "error-json", "timeout-json", "answer-wrong-type", "answer-not-json", "answer-type-confusion", "answer-bad-sdp", "answer-parser-panic-sdp", "answer-is-offer", "both-empty"}
 		if vstat.Thorough() {
 			outcomes = append(outcomes, "valid-answer-never-connects") // costs the client's 10 s data channel time-out
 		}
